@@ -7,8 +7,8 @@ From Onet Require Export Base.Corr Api.Rest Api.RestConc.
 
 (* Which variant of the model describes /repo as it is now.  The integrator flips a
    definition to [true] when the corresponding fix commit lands. *)
-Definition code_fixed_F17 := false.   (* REST: decoded argument allocated per request *)
-Definition code_fixed_F28 := false.   (* client: a kept connection that failed is dropped *)
+Definition code_fixed_F17 := true.   (* REST: decoded argument allocated per request *)
+Definition code_fixed_F28 := true.   (* client: a kept connection that failed is dropped *)
 
 Definition code_flags : flags := {| fix_f17 := code_fixed_F17; fix_keep := code_fixed_F28 |}.
 
